@@ -52,7 +52,7 @@ example : (Policy.mk true true true).Safe = true ∧ (Policy.mk false false fals
 
 /-- non-vacuity: a history with shared objects (Unbatcher-like policy: nothing copied, rebinding updates) in which a
 loaded dict IS the live object, and every user dict is intact. -/
-example : let s := run ⟨false, false, false⟩ (init 3) [.get, .step 4, .get, .load 0, .get, .step 9, .load 1]
+example : let s := run ⟨false, false, false⟩ (init 3) [.get, .step 4, .get, .load 0, .get, .rebind 9, .load 1]
     aliased s 1 = true ∧ immutableB s = true ∧ content s = 4 ∧ s.user.length = 3 := by decide
 
 /-- the pre-fix weighted sampler on the history of the repaired defect 9b5140a: load a checkpoint, iterate (a source gets
